@@ -103,6 +103,7 @@ type FuncContract struct {
 	Defines      *Expr
 	Measure      *Measure
 	Depth        *DepthClause
+	AtCalls      []*AtCall
 	MayPanic     string
 	CallsOnly    []string
 	HasCallsOnly bool
@@ -117,6 +118,13 @@ type DepthClause struct {
 	Rank  int
 	Expr  *Expr
 	Src   string
+}
+
+// AtCall: an assertion at every call of the named callee in the body of the function under contract
+// (a checked program-point assertion; callers never assume it).
+type AtCall struct {
+	Callee string
+	Clause *Clause
 }
 
 type Measure struct {
@@ -152,6 +160,7 @@ type PkgContract struct {
 	ReadOnlyUses  map[string]bool     // callees a read-only global may be passed to
 	RecoverPoints []string            // entry points that must recover from panics (C14)
 	DecodeEntries []string            // documented decode entry points: no reflective panic may escape them (C14)
+	PointerFields []string            // Type.field that must have a pointer type (an address kept as a key keeps its object alive)
 	Line          int
 }
 
@@ -369,6 +378,17 @@ func (fc *FuncContract) addClause(word, rest string, ln int) error {
 			}
 		}
 		fc.Measure = me
+	case "atcall":
+		// atcall <callee key> [tags:label] <expr>
+		i := strings.Index(rest, "[")
+		if i < 0 {
+			return fmt.Errorf("atcall <callee> [tags:label] <expr>")
+		}
+		c, err := parseClause("ensures", rest[i:], ln)
+		if err != nil {
+			return err
+		}
+		fc.AtCalls = append(fc.AtCalls, &AtCall{Callee: strings.TrimSpace(rest[:i]), Clause: c})
 	case "depth":
 		// depth [tags:label] rank N measure <expr>
 		dc := &DepthClause{Src: rest}
@@ -803,6 +823,8 @@ func (pc *PkgContract) add(word, rest string) error {
 		pc.RecoverPoints = append(pc.RecoverPoints, items()...)
 	case "decodeentries":
 		pc.DecodeEntries = append(pc.DecodeEntries, items()...)
+	case "pointerfields":
+		pc.PointerFields = append(pc.PointerFields, items()...)
 	case "fieldwriters":
 		f := strings.Fields(rest)
 		if len(f) < 2 {
